@@ -519,7 +519,7 @@ pub const OTHER: &[&str] = &[
     "ReduceLogSumExp", "ReduceSumSquare", "ArgMax", "ArgMin", "CumSum", "TopK", "Trilu", "DepthToSpace", "OneHot",
     "NonZero", "Einsum", "Shape", "Size", "Range", "EyeLike", "ReverseSequence", "MatMulInteger",
     "DequantizeLinear", "QuantizeLinear", "DynamicQuantizeLinear", "GeluMs", "QuickGelu", "BiasGelu", "FastGelu",
-    "SequenceInsert", "SequenceErase", "GridSample", "Dropout", "ConstantOfShape", "FusedSilu", "FusedAddSoftmax", "GRU", "LSTM", "Attention", "ConvInteger", "Upsample", "Scatter", "SimplifiedLayerNormalization", "SkipLayerNormalization", "MatMulWide", "GemmWide", "MatMulIntegerWide", "EinsumWide", "ConvWide",
+    "SequenceInsert", "SequenceErase", "GridSample", "Dropout", "ConstantOfShape", "FusedSilu", "FusedAddSoftmax", "GRU", "LSTM", "Attention", "ConvInteger", "Upsample", "Scatter", "SimplifiedLayerNormalization", "SkipLayerNormalization", "ConvPad", "ConvIntegerPad", "ConvTransposePad", "MaxPoolPad", "AveragePoolPad", "MatMulWide", "GemmWide", "MatMulIntegerWide", "EinsumWide", "ConvWide",
 ];
 
 pub fn all_names() -> Vec<&'static str> {
@@ -1284,6 +1284,79 @@ pub fn gen(name: &'static str, rng: &mut Rng) -> Option<Case> {
             c.onnx = "Attention";
             if rng.chance(1, 3) {
                 c = c.attr("is_causal", Attr::Int(1));
+            }
+            c
+        }
+        "ConvPad" | "ConvIntegerPad" => {
+            // every combination the conv dispatch distinguishes: pointwise / general / grouped / depthwise,
+            // independent pads on all four sides, strides, dilations; integer-valued data (exact results)
+            let int = name == "ConvIntegerPad";
+            let kind = if int { rng.below(2) } else { rng.below(4) }; // 0 general, 1 pointwise, 2 grouped, 3 depthwise
+            let groups = match kind {
+                2 => 2,
+                3 => 1 + rng.usize_below(3),
+                _ => 1,
+            };
+            let (cig, cog) = (1 + rng.usize_below(2), 1 + rng.usize_below(2));
+            let (ci, co) = if kind == 3 { (groups, groups) } else { (cig * groups, cog * groups) };
+            let (kh, kw) = if kind == 1 { (1, 1) } else { (1 + rng.usize_below(3), 1 + rng.usize_below(3)) };
+            let (h, w) = (2 + rng.usize_below(5), 2 + rng.usize_below(5));
+            let n = 1 + rng.usize_below(2);
+            let pads: Vec<i64> = (0..4).map(|_| rng.range_i64(0, 2)).collect();
+            let strides = vec![1 + rng.below(2) as i64, 1 + rng.below(2) as i64];
+            let dil = if rng.chance(1, 3) { vec![1 + rng.below(2) as i64, 1 + rng.below(2) as i64] } else { vec![1, 1] };
+            let wsh = vec![co, ci / groups, kh, kw];
+            let mut v = if int {
+                vec![Some(tu8(rng, &[n, ci, h, w])), Some(ti8(rng, &wsh))]
+            } else {
+                vec![Some(tfi(rng, &[n, ci, h, w], -3, 3)), Some(tfi(rng, &wsh, -2, 2))]
+            };
+            if !int && rng.chance(1, 2) {
+                v.push(Some(tfi(rng, &[co], -3, 3)));
+            }
+            let mut c = Case::new(name, v)
+                .onnx(if int { "ConvInteger" } else { "Conv" })
+                .attr("pads", Attr::Ints(pads))
+                .attr("strides", Attr::Ints(strides))
+                .attr("dilations", Attr::Ints(dil));
+            if groups != 1 || kind == 3 {
+                c = c.attr("group", Attr::Int(if kind == 3 { ci as i64 } else { groups as i64 }));
+            }
+            c
+        }
+        "ConvTransposePad" => {
+            let (ci, co) = (1 + rng.usize_below(3), 1 + rng.usize_below(3));
+            let (kh, kw) = (1 + rng.usize_below(3), 1 + rng.usize_below(3));
+            let (h, w) = (2 + rng.usize_below(4), 2 + rng.usize_below(4));
+            let strides = vec![1 + rng.below(2) as i64, 1 + rng.below(2) as i64];
+            let pads: Vec<i64> = vec![
+                rng.range_i64(0, (kh as i64 - 1).min(1)),
+                rng.range_i64(0, (kw as i64 - 1).min(1)),
+                rng.range_i64(0, (kh as i64 - 1).min(1)),
+                rng.range_i64(0, (kw as i64 - 1).min(1)),
+            ];
+            let mut v = vec![Some(tfi(rng, &[1, ci, h, w], -3, 3)), Some(tfi(rng, &[ci, co, kh, kw], -2, 2))];
+            if rng.chance(1, 2) {
+                v.push(Some(tfi(rng, &[co], -3, 3)));
+            }
+            Case::new(name, v).onnx("ConvTranspose").attr("pads", Attr::Ints(pads)).attr("strides", Attr::Ints(strides))
+        }
+        "MaxPoolPad" | "AveragePoolPad" => {
+            let sh = vec![1 + rng.usize_below(2), 1 + rng.usize_below(5), 2 + rng.usize_below(5), 2 + rng.usize_below(5)];
+            let k = vec![1 + rng.below(3) as i64, 1 + rng.below(3) as i64];
+            let pads: Vec<i64> = vec![
+                rng.range_i64(0, (k[0] - 1).min(2)),
+                rng.range_i64(0, (k[1] - 1).min(2)),
+                rng.range_i64(0, (k[0] - 1).min(2)),
+                rng.range_i64(0, (k[1] - 1).min(2)),
+            ];
+            let mut c = Case::new(name, vec![Some(tfi(rng, &sh, -4, 4))])
+                .onnx(if name == "MaxPoolPad" { "MaxPool" } else { "AveragePool" })
+                .attr("kernel_shape", Attr::Ints(k))
+                .attr("pads", Attr::Ints(pads))
+                .attr("strides", Attr::Ints(vec![1 + rng.below(2) as i64, 1 + rng.below(2) as i64]));
+            if name == "AveragePoolPad" && rng.chance(1, 2) {
+                c = c.attr("count_include_pad", Attr::Int(1));
             }
             c
         }
